@@ -1,7 +1,187 @@
 package main
 
-func genOther(g *gen, prop string, budget int, emit func(string)) bool { return false }
+import (
+	"fmt"
+	"strings"
+)
 
-func monitorRouter(m *mon, prop string, hdr []int, evs []ev, bad string) {}
+// ---- C13 / C14: router scripts (uncontended: a lock-needing event only when the lock is free) ----
+
+func (g *gen) routerScript(n int, lostHeavy bool) string {
+	pause := g.pick(0, 0, 5, 20) // seconds (x1000 ms)
+	retain := g.pick(0, 1, 2, 5, 31, 32, 33, 64)
+	b := &sb{head: fmt.Sprintf("rtr %d %d", pause*1000, retain)}
+	pid := 0
+	free := 0 // second from which the lock is certainly free
+	needLock := func() {
+		if b.q < free {
+			b.q = free
+		}
+	}
+	for i := 0; i < n && !b.full(); i++ {
+		sc := g.r.Intn(10)
+		if lostHeavy && g.r.Intn(2) == 0 {
+			sc = 6
+		}
+		g.stats[fmt.Sprintf("rtr.scenario%d", sc)]++
+		switch sc {
+		case 0, 1, 2, 3: // a send
+			pid++
+			needLock()
+			b.at(g.pick(0, 1), fmt.Sprintf("send %d", pid))
+			free = b.q + pause + 1
+		case 4: // inbound traffic
+			for k := 1 + g.r.Intn(4); k > 0; k-- {
+				b.at(0, fmt.Sprintf("rx rind %d", 5000+i*10+k))
+			}
+		case 5: // the application reads
+			for k := g.r.Intn(4); k > 0; k-- {
+				b.at(0, "read")
+			}
+		case 6: // lost indication (more than one message is resent only without a pause: the
+			// resending goroutine would wait for the mutex during the pause)
+			k := g.pick(0, 1, 1, 2, 3, 31, 32, 33, 64, 65535)
+			if pause > 0 {
+				k = g.pick(0, 1)
+			}
+			needLock()
+			b.at(1, fmt.Sprintf("rx rlost %d", k))
+			free = b.q + pause + 1
+		case 7: // busy indication: control != 0 waits exactly min(50, announced); control 0 adds a
+			// random 0..50 ms, determinate only when the cap is reached
+			needLock()
+			if g.r.Intn(2) == 0 {
+				b.at(1, fmt.Sprintf("rx rbusy %d %d", g.pick(0, 1, 20, 49, 50, 51, 500), 1+g.r.Intn(65535)))
+			} else {
+				b.at(1, fmt.Sprintf("rx rbusy %d 0", g.pick(50, 100, 500)))
+			}
+			if free < b.q+1 {
+				free = b.q + 1
+			}
+		case 8: // a send that fails
+			pid++
+			needLock()
+			b.at(1, "sockfail 1")
+			b.at(0, fmt.Sprintf("send %d", pid))
+			b.at(0, "sockfail 0")
+		case 9:
+			b.at(0, "rx other")
+		}
+	}
+	if g.r.Intn(3) == 0 {
+		needLock()
+		b.at(1, "close")
+		b.at(0, "read")
+		b.at(1, fmt.Sprintf("send %d", pid+1))
+		b.at(0, "read")
+	}
+	b.at(pause+1, "end")
+	return b.String()
+}
+
+func genOther(g *gen, prop string, budget int, emit func(string)) bool {
+	switch prop {
+	case "C13":
+		for i := 0; i < budget; i++ {
+			emit(g.routerScript(5+g.r.Intn(40), false))
+		}
+	case "C14":
+		emit(g.routerScript(300, true))
+		for i := 1; i < budget; i++ {
+			emit(g.routerScript(5+g.r.Intn(60), true))
+		}
+	default:
+		return false
+	}
+	return true
+}
+
+// monitorRouter: pacing, exact resending, bounded history, deliveries.
+func monitorRouter(m *mon, prop string, hdr []int, evs []ev, bad string) {
+	pause, retain := hdr[0], hdr[1]
+	if retain == 0 {
+		retain = 32
+	}
+	var retained []string
+	lastTx := -1 << 60
+	busyUntil := -1
+	var expectResend []string
+	var accepted, gots []string
+	closed := false
+	failing := false
+	for i, e := range evs {
+		switch {
+		case e.in && e.kind == "sockfail":
+			failing = e.f[0] == "1"
+		case e.in && e.kind == "close":
+			closed = true
+		case e.in && e.kind == "rx" && e.f[0] == "rind" && !closed:
+			accepted = append(accepted, e.f[1])
+		case e.in && e.kind == "rx" && e.f[0] == "rbusy" && !closed:
+			w := atoi(e.f[1])
+			if w > 50 {
+				w = 50
+			}
+			busyUntil = e.t + w
+		case e.in && e.kind == "rx" && e.f[0] == "rlost" && !closed:
+			k := atoi(e.f[1])
+			if k > len(retained) {
+				k = len(retained)
+			}
+			expectResend = append([]string(nil), retained[len(retained)-k:]...)
+			retained = retained[:len(retained)-k]
+			// the frames transmitted from now on (until the next event that sends) must be exactly these
+			var got []string
+			for _, o := range evs[i+1:] {
+				if o.in && (o.kind == "send" || (o.kind == "rx" && o.f[0] == "rlost")) {
+					break
+				}
+				if !o.in && o.kind == "tx" {
+					got = append(got, o.f[1])
+				}
+			}
+			if !failing && strings.Join(got, ",") != strings.Join(expectResend, ",") {
+				m.fail("resend-differs", fmt.Sprintf("lost %s at %d with %v retained before: expected retransmission of %v, the client sent %v", e.f[1], e.t, append(append([]string(nil), retained...), expectResend...), expectResend, got))
+			}
+		case !e.in && e.kind == "tx":
+			if e.t-lastTx < pause {
+				m.fail("pacing", fmt.Sprintf("transmissions at %d and %d, post-send pause %d", lastTx, e.t, pause))
+			}
+			if e.t < busyUntil {
+				m.fail("sent-while-busy", fmt.Sprintf("transmission at %d, the router asked for silence until %d", e.t, busyUntil))
+			}
+			lastTx = e.t
+			retained = append(retained, e.f[1])
+			if len(retained) > retain {
+				retained = retained[len(retained)-retain:]
+			}
+		case !e.in && e.kind == "got":
+			if e.f[0] != "none" && e.f[0] != "closed" {
+				gots = append(gots, e.f[0])
+			}
+			if closed && e.f[0] == "none" {
+				m.fail("inbound-not-closed", fmt.Sprintf("Inbound still open at %d after Close", e.t))
+			}
+		}
+	}
+	n := len(gots)
+	if n > len(accepted) || strings.Join(gots, ",") != strings.Join(accepted[:n], ",") {
+		m.fail("delivery-differs", fmt.Sprintf("received in order %v, Inbound delivered %v", accepted, gots))
+	}
+	// every Send returned
+	for _, e := range evs {
+		if e.in && e.kind == "send" {
+			found := false
+			for _, o := range evs {
+				if !o.in && o.kind == "ret" && o.f[0] == e.f[0] {
+					found = true
+				}
+			}
+			if !found {
+				m.fail("send-did-not-return", fmt.Sprintf("Send of %s at %d never returned", e.f[0], e.t))
+			}
+		}
+	}
+}
 
 func (m *mon) c05(hdr []int, evs []ev) {}
